@@ -14,3 +14,70 @@ package keeper
 //@ ensures [tipper_pays_the_tip] err == nil ==> bank.bal[acc(tipper)] == old(bank.bal[acc(tipper)]) - tip.Amount
 //@ ensures [returns_net_tip] err == nil ==> out.Amount == tip.Amount - 2*tip.Amount/100 && out.Denom == tip.Denom
 //@ ensures [other_accounts_untouched] forall a addr :: a != acc(tipper) && a != module("oracle") ==> bank.bal[a] == old(bank.bal[a])
+
+// ---- aggregation (C06) ----
+// hexnum(s): numeric value of s read as a base-16 numeral; ishex(s): s is an optionally signed, non-empty
+// string of base-16 digits (what big.Int.SetString(s, 16) accepts). Powers are whole tokens.
+
+//@ define tot(rs, n) = sum j in [0, n) :: rs[j].Power
+
+//@ func (k Keeper).WeightedMedian(ctx, reports, metaId) (agg, err)
+//@ requires [non_empty] len(reports) > 0
+//@ requires [values_are_hex] forall j in [0, len(reports)) :: ishex(reports[j].Value)
+//@ requires [one_report_per_reporter] forall a in [0, len(reports)) :: forall b in [0, len(reports)) :: a != b ==> reports[a].Reporter != reports[b].Reporter
+//@ requires [each_power_at_least_one_token_and_below_2_63] forall j in [0, len(reports)) :: 1 <= reports[j].Power && reports[j].Power < 9223372036854775808
+//@ requires [total_power_below_2_63] tot(reports, len(reports)) < 9223372036854775808
+//@ ensures [no_error] err == nil && agg != nil
+//@ ensures [reports_are_a_rearrangement] forall j in [0, len(reports)) :: exists m in [0, len(reports)) :: reports[j] == old(reports[m])
+//@ ensures [every_original_report_kept] forall m in [0, len(reports)) :: exists j in [0, len(reports)) :: reports[j] == old(reports[m])
+//@ ensures [sorted_by_numeric_value] forall a in [0, len(reports)) :: forall b in [0, len(reports)) :: a < b ==> hexnum(reports[a].Value) <= hexnum(reports[b].Value)
+//@ ensures [chosen_index_in_range] agg.AggregateReportIndex < len(reports)
+//@ ensures [value_and_reporter_of_chosen_report] agg.AggregateValue == reports[agg.AggregateReportIndex].Value && agg.AggregateReporter == reports[agg.AggregateReportIndex].Reporter
+//@ ensures [strictly_below_holds_less_than_half] 2 * tot(reports, agg.AggregateReportIndex) < tot(reports, len(reports))
+//@ ensures [up_to_chosen_holds_at_least_half] 2 * tot(reports, agg.AggregateReportIndex + 1) >= tot(reports, len(reports))
+//@ ensures [records_total_power] agg.ReporterPower == tot(reports, len(reports))
+//@ ensures [lists_every_report_once] len(agg.Reporters) == len(reports) && forall j in [0, len(reports)) :: agg.Reporters[j] != nil && agg.Reporters[j].Reporter == reports[j].Reporter && agg.Reporters[j].Power == reports[j].Power && agg.Reporters[j].BlockNumber == reports[j].BlockNumber
+//@ ensures [meta_fields] agg.MetaId == metaId && agg.QueryId == reports[agg.AggregateReportIndex].QueryId && agg.MicroHeight == reports[agg.AggregateReportIndex].BlockNumber
+//@ loop 0 "for _, r := range reports"
+//@ loop 0 invariant [parsed_values] forall j in [0, $i) :: has(values, reports[j].Reporter) && values[reports[j].Reporter] == 1000000000000000000 * hexnum(reports[j].Value)
+//@ loop 1 "for _, r := range reports"
+//@ loop 1 invariant [total_so_far] totalReporterPower == 1000000000000000000 * tot(reports, $i) && tot(reports, $i) >= $i
+//@ loop 1 invariant [reporters_so_far] len(medianReport.Reporters) == $i && forall j in [0, $i) :: allocated(medianReport.Reporters[j]) && medianReport.Reporters[j].Reporter == reports[j].Reporter && medianReport.Reporters[j].Power == reports[j].Power && medianReport.Reporters[j].BlockNumber == reports[j].BlockNumber
+//@ loop 2 "for i, s := range reports"
+//@ loop 2 invariant [cumulative_so_far] cumulativePower == 1000000000000000000 * tot(reports, i)
+//@ loop 2 invariant [not_yet_half] 2 * tot(reports, i) < tot(reports, len(reports))
+//@ loop 2 invariant [reporters_kept] len(medianReport.Reporters) == len(reports) && forall j in [0, len(reports)) :: allocated(medianReport.Reporters[j]) && medianReport.Reporters[j].Reporter == reports[j].Reporter && medianReport.Reporters[j].Power == reports[j].Power && medianReport.Reporters[j].BlockNumber == reports[j].BlockNumber
+
+//@ define wsum(rs, n, v) = sum j in [0, n) :: (rs[j].Value == v ? rs[j].Power : 0)
+
+//@ func (k Keeper).WeightedMode(ctx, reports, metaId) (agg, err)
+//@ requires [non_empty] len(reports) > 0
+//@ requires [each_power_at_least_one_token] forall j in [0, len(reports)) :: 1 <= reports[j].Power
+//@ requires [every_prefix_total_below_2_63] forall m in [0, len(reports) + 1) :: tot(reports, m) < 9223372036854775808
+//@ ensures [no_error] err == nil && agg != nil
+//@ ensures [chosen_value_has_maximal_weight] forall v string :: wsum(reports, len(reports), v) <= wsum(reports, len(reports), agg.AggregateValue)
+//@ ensures [equal_weight_ties_resolved_by_fixed_rule] forall v string :: wsum(reports, len(reports), v) == wsum(reports, len(reports), agg.AggregateValue) ==> agg.AggregateValue <= v
+//@ ensures [reporter_reported_chosen_value] agg.AggregateReportIndex < len(reports) && reports[agg.AggregateReportIndex].Value == agg.AggregateValue && reports[agg.AggregateReportIndex].Reporter == agg.AggregateReporter
+//@ ensures [strongest_reporter_of_chosen_value] forall j in [0, len(reports)) :: reports[j].Value == agg.AggregateValue ==> reports[j].Power <= reports[agg.AggregateReportIndex].Power
+//@ ensures [records_total_power] agg.ReporterPower == tot(reports, len(reports))
+//@ ensures [lists_every_report_once] len(agg.Reporters) == len(reports) && forall j in [0, len(reports)) :: agg.Reporters[j] != nil && agg.Reporters[j].Reporter == reports[j].Reporter && agg.Reporters[j].Power == reports[j].Power && agg.Reporters[j].BlockNumber == reports[j].BlockNumber
+//@ ensures [reports_untouched] forall j in [0, len(reports)) :: reports[j] == old(reports[j])
+//@ ensures [meta_fields] agg.MetaId == metaId && agg.QueryId == reports[agg.AggregateReportIndex].QueryId && agg.MicroHeight == reports[agg.AggregateReportIndex].BlockNumber
+//@ loop 0 "for _, r := range reports"
+//@ loop 0 invariant [frequency_is_weight_so_far] forall v string :: frequencyMap[v] == wsum(reports, $i, v)
+//@ loop 0 invariant [weight_below_total] forall v string :: wsum(reports, $i, v) <= tot(reports, $i)
+//@ loop 0 invariant [first_value_present] $i > 0 ==> frequencyMap[reports[0].Value] >= 1
+//@ loop 0 invariant [total_so_far] totalReporterPower == tot(reports, $i)
+//@ loop 0 invariant [reporters_so_far] len(modeReporters) == $i && forall j in [0, $i) :: allocated(modeReporters[j]) && modeReporters[j].Reporter == reports[j].Reporter && modeReporters[j].Power == reports[j].Power && modeReporters[j].BlockNumber == reports[j].BlockNumber
+//@ loop 1 "for i := uint64(0); i < entries; i++"
+//@ loop 1 invariant [counting_up] i <= entries && entries == reports[$i0].Power && r.Value == reports[$i0].Value
+//@ loop 1 invariant [room_for_counting] tot(reports, $i0 + 1) < 9223372036854775808 && wsum(reports, $i0, r.Value) <= tot(reports, $i0)
+//@ loop 1 invariant [frequency_plus_counted] forall v string :: frequencyMap[v] == wsum(reports, $i0, v) + (v == r.Value ? i : 0)
+//@ loop 2 "for value, frequency := range frequencyMap"
+//@ loop 2 invariant [max_over_seen] maxFrequency >= 0 && forall v string :: seen(v) ==> frequencyMap[v] <= maxFrequency
+//@ loop 2 invariant [mode_attains_max] maxFrequency > 0 ==> frequencyMap[mode] == maxFrequency
+//@ loop 2 invariant [mode_is_smallest_value_with_max_weight] forall v string :: seen(v) && maxFrequency > 0 && frequencyMap[v] == maxFrequency ==> mode <= v
+//@ loop 3 "for i, r := range reports"
+//@ loop 3 invariant [strongest_so_far] forall j in [0, i) :: reports[j].Value == mode ==> reports[j].Power <= maxWeight
+//@ loop 3 invariant [found_is_a_reporter_of_mode] maxWeight > 0 ==> modeReportIndex < i && reports[modeReportIndex].Value == mode && reports[modeReportIndex].Power == maxWeight && modeReport == reports[modeReportIndex]
+//@ loop 3 invariant [nothing_found_means_no_weight] maxWeight == 0 ==> wsum(reports, i, mode) == 0
